@@ -40,16 +40,16 @@ def run(tier):
     for i in range(0, min(ck.cov['direct_source_values'], 100000)):
         ck.distinct.add(('direct', i))
     ck.sample({'direct': 'Convert::To<float>(int64 9223372036854775807)', 'allowed': 'out_of_range or nearest float', 'never': 'UB / wrapped value'})
-    try:
-        from checks import c04docs
-        c04docs.run_docs(ck, tier)
-    except ImportError:
-        ck.cov['document_part'] = 'not built yet'
+    from checks import c04docs
+    ck.cov['document_part'] = c04docs.run_part(ck, tier)
     return ck.finish(min_nontrivial=1000)
 
 
 def replay(w):
     wit = w['witness']
+    if wit.get('driver') == 'drv_req':
+        from checks import c03
+        return c03.replay(w)
     exe = C.build_conv(wit.get('variant', 'ubsan'))
     ev, err, rc, bad = core.run_driver(exe, [wit['case']], wit.get('variant', 'ubsan'))
     print(ev, err[-2000:])
